@@ -9,7 +9,7 @@
    is [joinc cs] (names joined with '/'), and cs <> [] excludes the root itself.
    [walk t] = the list of Stat values passed to the callback of fs.Walk(ctx, "", fn), in order. *)
 From Coq Require Import List NArith Bool Sorting.Sorted Sorting.Permutation.
-From FS Require Import Sx Model.Path Model.Stat Model.Tree Model.Walk Proofs.Lex Proofs.PathP Proofs.WalkP.
+From FS Require Import Sx Model.Path Model.Stat Model.Tree Model.Walk Proofs.Lex Proofs.PathP Proofs.WalkP Proofs.WalkHL Proofs.WalkSD.
 Import ListNotations.
 Open Scope N_scope.
 
@@ -129,6 +129,30 @@ Theorem walk_at_sub :
      NoDup (map st_path (walk_at t target))).
 Proof. exact walk_at_sub_proof. Qed.
 
+(* Hard links in a sub-target walk.  fs.Walk creates one seenFiles map per call, so only the inode
+   groups of the WALKED sub-sequence exist: among the non-directories at or below the target that
+   share the inode of the entry there is a least one c0 (in protocol path order); it is reported
+   with empty Linkname (as the file itself, full size) and every later one names it.  A member of
+   the group that lies OUTSIDE the target plays no role — in particular, when the whole-tree walk
+   reports a/x and then "a-b" as a link to a/x, the sub-target walk of "a-b" alone reports it as a
+   plain file, and the sub-target walk of a directory never names a path outside that directory.
+   Same hypotheses as walk_hardlinks. *)
+Theorem walk_at_hardlinks :
+  forall t target, wf_tree t -> one_fs t -> ino_consistent t ->
+  target_comps target <> [] ->
+  forall st, In st (walk_at t target) ->
+  forall c r, tree_at t (target_comps target ++ c) r ->
+    st_path st = joinc (target_comps target ++ c) -> is_dir r = false ->
+  exists c0 r0,
+    tree_at t (target_comps target ++ c0) r0 /\ is_dir r0 = false /\
+    l_ino r0 = l_ino r /\ l_dev r0 = l_dev r /\
+    (forall c1 r1, tree_at t (target_comps target ++ c1) r1 -> is_dir r1 = false -> l_ino r1 = l_ino r ->
+                   c1 = c0 \/ compare_path (joinc (target_comps target ++ c0)) (joinc (target_comps target ++ c1)) = Lt) /\
+    st_linkname st = (if is_symlink r then l_target r
+                      else if bytes_eqb (joinc (target_comps target ++ c0)) (joinc (target_comps target ++ c))
+                           then [] else joinc (target_comps target ++ c0)).
+Proof. exact walk_at_hardlinks_proof. Qed.
+
 (* SubDirFS.  For proper sub-roots (names = distinct well-formed single components, directory
    Stats, well-formed trees) the composite walk is: the sub-roots in bytewise name order; for each
    its own Stat, then its walk with "name/" put in front of every path and every hard-link name,
@@ -142,6 +166,43 @@ Theorem subdir_walk_prefixed :
   /\ StronglySorted (fun a b => cmp_bytes (sd_name a) (sd_name b) = Lt) (isort_sd ds)
   /\ StronglySorted (fun p q => compare_path p q = Lt) (map fst (flat_map sd_block (isort_sd ds))).
 Proof. exact subdir_walk_prefixed_proof. Qed.
+
+(* Hard links inside SubDirFS.  subDirFS.Walk runs the inner FS.Walk once per sub-root (its own
+   seenFiles), then rewrites: for the callback "name/p" of a non-directory p of sub-root d the
+   Linkname is empty if p is the least holder of its inode WITHIN d, otherwise "name/" + that
+   least path (never a path of another sub-root, even if the inode is the same file there);
+   a symlink keeps its readlink target, re-rooted below "/name" and cleaned when absolute. *)
+Theorem subdir_walk_hardlinks :
+  forall ds, sd_wf ds ->
+  forall cbs err, walk_subdirs ds [] = Some (cbs, err) ->
+  forall d, In d ds -> one_fs (sd_tree d) -> ino_consistent (sd_tree d) ->
+  forall st cs r, In (sd_name d ++ sep :: joinc cs, st) cbs ->
+    cs <> [] -> tree_at (sd_tree d) cs r -> is_dir r = false ->
+  st_path st = sd_name d ++ sep :: joinc cs /\
+  exists cs0 r0,
+    cs0 <> [] /\ tree_at (sd_tree d) cs0 r0 /\ is_dir r0 = false /\ l_ino r0 = l_ino r /\ l_dev r0 = l_dev r /\
+    (forall cs1 r1, cs1 <> [] -> tree_at (sd_tree d) cs1 r1 -> is_dir r1 = false -> l_ino r1 = l_ino r ->
+                    cs1 = cs0 \/ compare_path (joinc cs0) (joinc cs1) = Lt) /\
+    st_linkname st =
+      (if is_symlink r then
+         (if is_abs (l_target r) then clean (sep :: sd_name d ++ sep :: l_target r) else l_target r)
+       else if bytes_eqb (joinc cs0) (joinc cs) then [] else sd_name d ++ sep :: joinc cs0).
+Proof. exact subdir_walk_hardlinks_proof. Qed.
+
+(* SubDirFS, walk of a sub-target.  subDirFS.Walk cuts the target at its first separator; for
+   proper sub-roots and a target  name  or  name/rest  whose first component is a well-formed name:
+   if a sub-root is called name, the callbacks are exactly that sub-root's Stat followed by its
+   walk at rest (walk_at: the entry rest and everything below it, walk_at_sub / walk_at_hardlinks),
+   prefixed ([sd_block_at]); no error.  Sub-roots are selected by EQUALITY of the whole component:
+   every other sub-root contributes nothing — also one whose name is a proper string prefix of
+   name (lib vs lib64) or has name as a prefix — and if no sub-root is called name nothing is
+   reported at all. *)
+Theorem subdir_walk_at :
+  forall ds name rest target, sd_wf ds -> wf_name name ->
+  (target = name ++ sep :: rest \/ (target = name /\ rest = [])) ->
+  (forall d, In d ds -> sd_name d = name -> walk_subdirs ds target = Some (sd_block_at d rest, false)) /\
+  ((forall d, In d ds -> sd_name d <> name) -> walk_subdirs ds target = Some ([], false)).
+Proof. exact subdir_walk_at_proof. Qed.
 
 (* The shared view model (Model/Tree.v, used by the other properties through MemFS): the canonical
    listing of a view whose sibling lists are strictly ascending bytewise, with non-empty
@@ -167,6 +228,9 @@ Print Assumptions walk_hardlinks.
 Print Assumptions walk_hardlinks_cross_device_refuted.
 Print Assumptions wf_tree_b_reflects.
 Print Assumptions walk_at_sub.
+Print Assumptions walk_at_hardlinks.
+Print Assumptions subdir_walk_hardlinks.
+Print Assumptions subdir_walk_at.
 Print Assumptions subdir_walk_prefixed.
 Print Assumptions view_walk_sorted.
 Print Assumptions sorted_b_reflects.
@@ -222,6 +286,27 @@ Example ex_walk_at :
   /\ walk_at ex_tree [A; 47; 110; 111] = [] /\ walk_at ex_tree [47] = walk ex_tree.
 Proof. vm_compute. repeat split; reflexivity. Qed.
 
+(* hard links and sub-targets: inode 5 has the names "a-b", a/x and a/z.  The whole walk reports
+   a/x as the file and a/z, a-b as links to it; the walk of target "a" sees a/x (file) and a/z
+   (link to a/x); the walk of target "a-b" — whose group members all lie elsewhere — reports a
+   plain file; the walk of a/z alone likewise.  (Size is the file size also for the links: mkstat's
+   stat.Size = fi.Size() comes after setUnixOpt's stat.Size = 0 — walk_stat.) *)
+Definition Z := 122.
+Definition ex_tree_hl : tree :=
+  T (rec_ 16877 1 3 [])
+    [ ([A; 45; B], T (rec_ 33188 5 3 []) []);
+      ([A], T (rec_ 16877 2 2 [])
+              [ ([Z], T (rec_ 33188 5 3 []) []);
+                ([X], T (rec_ 33188 5 3 []) []) ]) ].
+Example ex_walk_at_hardlinks :
+  map (fun s => (st_path s, st_linkname s, st_size s)) (walk ex_tree_hl) =
+  [ ([A], [], 0); ([A; 47; X], [], 3); ([A; 47; Z], [A; 47; X], 3); ([A; 45; B], [A; 47; X], 3) ]
+  /\ map (fun s => (st_path s, st_linkname s, st_size s)) (walk_at ex_tree_hl [A]) =
+     [ ([A], [], 0); ([A; 47; X], [], 3); ([A; 47; Z], [A; 47; X], 3) ]
+  /\ map (fun s => (st_path s, st_linkname s, st_size s)) (walk_at ex_tree_hl [A; 45; B]) = [ ([A; 45; B], [], 3) ]
+  /\ map (fun s => (st_path s, st_linkname s, st_size s)) (walk_at ex_tree_hl [A; 47; Z]) = [ ([A; 47; Z], [], 3) ].
+Proof. vm_compute. repeat split; reflexivity. Qed.
+
 (* SubDirFS over two sub-roots "s" and "r" both holding ex_tree: r first; paths, the hard-link
    name a/x and the absolute symlink target /t are prefixed *)
 Definition dstat (name : list N) : stat :=
@@ -240,6 +325,18 @@ Example ex_subdirs :
   | None => False
   end.
 Proof. vm_compute. split; reflexivity. Qed.
+
+(* sub-roots "a" and "a-b" (one name a string prefix of the other), both holding ex_tree: the target
+   "a-b/a" reports a-b and the sub-tree a-b/a only — nothing of sub-root "a"; the target "a-" (a
+   prefix of one name, an extension of the other) reports nothing *)
+Example ex_subdir_at :
+  let ds := [ {| sd_stat := dstat [A]; sd_tree := ex_tree |};
+              {| sd_stat := dstat [A; 45; B]; sd_tree := ex_tree |} ] in
+  option_map (fun x => (map fst (fst x), snd x)) (walk_subdirs ds [A; 45; B; 47; A]) =
+    Some ([ [A; 45; B]; [A; 45; B; 47; A]; [A; 45; B; 47; A; 47; X]; [A; 45; B; 47; A; 47; Y] ], false)
+  /\ walk_subdirs ds [A; 45] = Some ([], false)
+  /\ option_map (fun x => length (fst x)) (walk_subdirs ds [A]) = Some 6%nat.
+Proof. vm_compute. repeat split; reflexivity. Qed.
 
 (* the refutation witness: the model reports m2/f and m2/g as links to m1/f *)
 Example ex_cross_device :
